@@ -313,7 +313,9 @@ impl Response {
                 let col_count = u32::from_le_bytes(payload[0..4].try_into().unwrap()) as usize;
                 offset += 4;
 
-                let mut columns = Vec::with_capacity(col_count);
+                // The counts come from the peer: never reserve more than the payload could possibly hold
+                // (every string takes at least its 4-byte length prefix).
+                let mut columns = Vec::with_capacity(col_count.min(payload.len() / 4));
 
                 for _ in 0..col_count {
                     let (col, len) = read_string_with_len(&payload[offset..])?;
@@ -328,7 +330,10 @@ impl Response {
                     u32::from_le_bytes(payload[offset..offset + 4].try_into().unwrap()) as usize;
                 offset += 4;
 
-                let mut data = Vec::with_capacity(row_count);
+                if col_count == 0 && row_count > 0 {
+                    return Err(TcpError::InvalidMessage("Rows without columns".into()));
+                }
+                let mut data = Vec::with_capacity(row_count.min(payload.len() / 4));
                 for _ in 0..row_count {
                     let mut row = Vec::with_capacity(col_count);
                     for _ in 0..col_count {
